@@ -132,8 +132,14 @@ def batch_src(cases: list[tuple[str, list]], nq: int = 3) -> str:
 
 
 def outcomes(ops: list) -> list[int]:
-    """forced outcomes in program order (one oracle call per measurement-like operation)"""
-    return [op["b"] for op in ops if op["g"] in MEAS]
+    """forced outcomes in program order: one oracle call per measurement-like operation, except that
+    the interpreter's tket.qsystem.MeasureReset measures and then resets (= measures once more, with
+    the then certain outcome b)"""
+    out = []
+    for op in ops:
+        if op["g"] in MEAS:
+            out += [op["b"], op["b"]] if op["g"] == "measure_and_reset" else [op["b"]]
+    return out
 
 
 # ---------------------------------------------------------------------------------------
